@@ -324,28 +324,7 @@ pub fn project_of(c: &Case) -> (Project, u64) {
     if c.shape == Shape::Mutated || !c.mutations.is_empty() {
         let entry = p.entry.clone();
         let mut text = p.files[&entry].clone();
-        for (pos, kind, what) in &c.mutations {
-            let chars: Vec<char> = text.chars().collect();
-            if chars.is_empty() {
-                break;
-            }
-            let i = ((*pos as u64 * chars.len() as u64) >> 32) as usize;
-            let sp = crate::props::c05::SPECIAL;
-            let ins = sp[((*what as u64 * sp.len() as u64) >> 32) as usize];
-            let mut out: String = chars[..i].iter().collect();
-            match kind % 3 {
-                0 => {
-                    out.push_str(ins);
-                    out.extend(chars[i..].iter());
-                }
-                1 => out.extend(chars[i + 1..].iter()),
-                _ => {
-                    out.push_str(ins);
-                    out.extend(chars[i + 1..].iter());
-                }
-            }
-            text = out;
-        }
+        text = crate::props::c05::mutate_text(text, &c.mutations, true);
         p.files.insert(entry, text);
     }
     (p, excluded)
